@@ -131,6 +131,7 @@ static void one_case(char* line) {
   if (line[0] == 'N') { rbuf[0] = 0; s = new_raw(String); }
   else { unhex(line, rbuf); s = new_raw(String, $S(rbuf)); }
   P("new"); dump(s, "new");
+  fflush(OUT);
   char* p = bar + 1; char* tok;
   char out[64], rout[64];
   while ((tok = next_tok(&p, ' ')) != NULL) {
